@@ -156,6 +156,8 @@ def run(chk):
                        'how': 'recorded run judged by spec/Trace_Argv.tla'})
     for e in events[:2]:
         chk.sample({'trace_event': e})
+    # 5. the pytest entry point: same specification, real `python -m pytest` runs --------------------------------
+    pytest_runs(chk, rnd, r2.rows, 140 if not thorough else 1200, 80 if not thorough else 600)
     chk.coverage['rule'] = (
         'argv: every sequence of <= N tokens over the 22-token vocabulary of MC_Argv (TLC case table), '
         'non-trivial = well-shaped with at least one option; runs: (argv, module) pairs with a non-empty '
@@ -167,6 +169,64 @@ def run(chk):
                'only by kinds')
     chk.assume('naming an individual untagged method, or a subclass of a class-tagged class, is not demanded')
     chk.assume("unittest's own option parser and loader are trusted (environment)")
+
+
+def pytest_runs(chk, rnd, sel_rows, ntable, nrich):
+    import os
+    from concurrent.futures import ThreadPoolExecutor
+    from harness import pytest_lib as pl
+    root = common.subdir('pytest_tags')
+    tasks = []
+    rows = sorted(sel_rows, key=lambda r: json.dumps(r, sort_keys=True))
+    for r in (rows if ntable >= len(rows) else rnd.sample(rows, ntable)):
+        structure = [{'cls': 'Test' + c['cls'], 'ctag': c['ctag'], 'tests': sorted(c['tests'], key=lambda t: t['name'])}
+                     for c in sorted(r['module'], key=lambda c: c['cls'])]
+        names = ['Test' + n for n in sorted(r['names'])]
+        if any(not c['tests'] for c in structure if c['cls'] in names):
+            continue            # pytest: a node id that collects nothing is a usage error (environment)
+        tasks.append((structure, [], names, r['tagged'], r['check']))
+    for _ in range(nrich):
+        structure = rich_module(rnd)
+        functions = [{'name': 'test_f%d' % k, 'mtag': rnd.random() < 0.4} for k in range(1, 3) if rnd.random() < 0.5]
+        eff = {c['cls']: c for c in effective(structure)}
+        cands = [c for c in eff if eff[c]['tests']] + [f['name'] for f in functions]
+        names = rnd.sample(cands, rnd.randint(1, min(2, len(cands)))) if cands and rnd.random() < 0.4 else []
+        tasks.append((structure, functions, names, rnd.random() < 0.6, rnd.random() < 0.35))
+
+    def one(i):
+        structure, functions, names, tagged, check = tasks[i]
+        return pl.tag_run(os.path.join(root, 'p%d' % i), structure, functions, names, tagged, check,
+                          extra=(['-v'] if i % 5 == 0 else ['-x'] if i % 7 == 0 else []))
+    with ThreadPoolExecutor(14) as ex:
+        results = list(ex.map(one, range(len(tasks))))
+    events = []
+    for tid, ((structure, functions, names, tagged, check), got) in enumerate(zip(tasks, results)):
+        module = effective(structure) + [{'cls': 'fn_' + f['name'], 'ctag': False, 'tests': [{'name': f['name'], 'mtag': f['mtag']}]}
+                                          for f in functions]
+        fnames = {f['name'] for f in functions}
+        events.append({'tid': tid, 'ev': 'PyRun', 'module': module, 'names': [('fn_' + n) if n in fnames else n for n in names],
+                       'tagged': bool(tagged), 'check': bool(check), 'executed': got['executed'], 'listed': got['listed'],
+                       'error': got['error'], 'argv': [rl.str2tok(a) for a in ['pytest'] + got['argv']]})
+        chk.count_case(('pytest', module_key(effective(structure)), tuple(names), tagged, check), nontrivial=bool(got['executed'] or got['listed']))
+    res, rejected = trace.validate('Trace_Argv', 'Trace_Argv.cfg', events, name='Trace_Argv_pytest')
+    chk.add_tlc(res)
+    chk.coverage['traces_validated_against_impl'] += len(events)
+    chk.coverage['pytest_runs'] = len(events)
+    for rej in rejected:
+        e = events[rej['line'] - 1]
+        if 'NotWellShaped' in rej['bad']:
+            chk.machinery_error('pytest driver named a class the module lacks: %r' % e['names'])
+            continue
+        structure, functions, names, tagged, check = tasks[e['tid']]
+        chk.violation({'kind': 'pytest-run', 'clause': sorted(rej['bad'])[0], 'tagged': tagged, 'check': check},
+                      {'module': structure, 'functions': functions, 'pytest_args': results[e['tid']]['argv'], 'observed':
+                       {'executed': e['executed'], 'listed': e['listed'], 'error': e['error']}, 'failed_clauses': rej['bad'],
+                       'how': 'python -m pytest on a generated project whose conftest.py imports tdda.referencetest.pytestconfig; '
+                              'judged by spec/Trace_Argv.tla (PyRun)'})
+    if events:
+        chk.sample({'pytest_event': events[0]})
+    import shutil
+    shutil.rmtree(root, ignore_errors=True)
 
 
 SHORT_EXTRA = ['v', 'q', 'f', 'b']
